@@ -35,11 +35,13 @@ BBOX_DAMAGED = ['*xywh-1:10,20,300', '*xywh-1:10,20', '*xywh-1', '*xywh', '*xywh
 BLANKS_AROUND = ['4c ', '8.dd#L  ', '2r\u00a0', '4c 4e\x1f', ' 4c', '4c\u2003', '2r ', '16ee-J \u00a0']
 # cells that begin with a double quote (a legal signifier): truncated or garbled, never to be read as CSV quoting
 QUOTED = ['"4', '"qq"', '"', '"4c"x', '"4 "']
-MALFORMED = QUOTED + UNKNOWN + WRONG_ORDER + TRUNCATED + GARBAGE_APPENDED + BUILDER_RAISES + NONASCII + EMPTY + EMPTY + BBOX_DAMAGED + BLANKS_AROUND
+# look-alikes of the null token: two or more dots are no token at all
+DOTS = ['..', '...', '.....']
+MALFORMED = DOTS + QUOTED + UNKNOWN + WRONG_ORDER + TRUNCATED + GARBAGE_APPENDED + BUILDER_RAISES + NONASCII + EMPTY + EMPTY + BBOX_DAMAGED + BLANKS_AROUND
 # malformed by construction (an unknown character, a wrong order, a truncation that is no token): a kern spine MUST
 # report these, whatever the recogniser of the tree under test says.  (The others are a valid token followed by
 # garbage, which kernpy accepts and shortens - finding K7 - so for them the recogniser's own verdict is used.)
-MUST_REJECT = {'"4', '"qq"', '"', '"4 "', '4zz', 'h', '\u00d64c', '\u00a7', '4c 4zz', '%%', '4&c&&', 'u', 'c4', '#4c', 'c#4', '4#c', 'r4', '=|1|', '=:1',
+MUST_REJECT = {'..', '...', '.....', '"4', '"qq"', '"', '"4 "', '4zz', 'h', '\u00d64c', '\u00a7', '4c 4zz', '%%', '4&c&&', 'u', 'c4', '#4c', 'c#4', '4#c', 'r4', '=|1|', '=:1',
                '4', '16.', '*cle', '*k[f#', '*M4/', '*met(c', '4%', '8q', '*clef', '4cc#4%',
                '8rJ', '2r[', 'r]', '2r;]', '4r_', '4rL', 'z2r[', '4r/',
                '*xywh-1:10,20,300', '*xywh-1:10,20', '*xywh-1', '*xywh', '*xywh-1:10;20;300;400',
